@@ -84,12 +84,15 @@ fdprintf(const char *fmt, ...)
 	int tp;
 
 	va_list vap;
+	va_list cpy;
 	va_start(vap, fmt);
 
-	/* try and write */
+	/* try and write, on a copy as we might have to go again */
+	va_copy(cpy, vap);
 	tp = vsnprintf(
 		fd_aux.buf + fd_aux.bi, sizeof(fd_aux.buf) - fd_aux.bi,
-		fmt, vap);
+		fmt, cpy);
+	va_end(cpy);
 	if (UNLIKELY((size_t)tp + fd_aux.bi >= sizeof(fd_aux.buf))) {
 		/* yay, finally some write()ing */
 		fdflush();
